@@ -177,8 +177,10 @@ var hPreds = []hPred{
 	}},
 }
 
-// extraPreds are hereditary predicates used by C04's single-pass save/load sweep only (not part of C03's configurations).
+// extraPreds are hereditary predicates used by C04's single-pass save/load sweep and by the n <= 2 boundary configurations.
 var extraPreds = []hPred{
+	{"no-vertices", func(n int, e func(i, j int) bool) bool { return n == 0 }},
+	{"at-most-1-vertex", func(n int, e func(i, j int) bool) bool { return n <= 1 }},
 	{"at-most-10-non-edges", func(n int, e func(i, j int) bool) bool {
 		non := 0
 		for a := 0; a < n; a++ {
@@ -414,6 +416,14 @@ func c03Configs(maxN int) []searchCfg {
 						continue
 					}
 					out = append(out, searchCfg{N: n, M: m, Pred: p.name, Place: pl})
+				}
+			}
+			if n <= 2 {
+				// predicates that tell the graphs on 0, 1 and 2 vertices apart (the iterator special-cases n <= 1)
+				for _, pn := range []string{"no-vertices", "at-most-1-vertex"} {
+					for _, pl := range []string{"preprune", "prune", "both"} {
+						out = append(out, searchCfg{N: n, M: m, Pred: pn, Place: pl})
+					}
 				}
 			}
 			if n <= 6 && m <= 2 {
